@@ -4,7 +4,8 @@
 # VERIF_REPO=<dir> (testing the machinery only) builds against another checkout of storj/drpc instead.
 set -u
 ID=$1; TIER=${2:-quick}
-ROOT=${VERIF_ROOT:-/verif}   # VERIF_ROOT: run from another checkout of /verif (development only)
+ROOT=${VERIF_ROOT:-$(cd "$(dirname "$0")" && pwd)}   # the checkout this script lives in (normally /verif)
+export VERIF_ROOT=$ROOT
 cd $ROOT/harness || exit 2
 export GOFLAGS=-mod=mod GOPROXY=off GOSUMDB=off GOTOOLCHAIN=local GOMAXPROCS=${GOMAXPROCS:-16}
 mkdir -p $ROOT/bin $ROOT/out $ROOT/evidence
